@@ -45,14 +45,16 @@ FEATURES = [
     None,
 ]
 
-DYADIC_STEPS = [900, 1800, 3600, 7200]
-OTHER_STEPS = [600, 1200]
+DYADIC_STEPS = [900, 1800, 3600, 7200, 900, 1800, 3600, 7200, 225, 86400, 129600, 172800]
+OTHER_STEPS = [600, 1200, 600, 1200, 1, 60, 432000, 3900, 7380, 115]
 
 
 def gen(rng, force=None, dyadic=None, max_segments=10):
     if dyadic is None:
         dyadic = rng.random() < 0.6
     step = rng.choice(DYADIC_STEPS) if dyadic else rng.choice(OTHER_STEPS)
+    if force in ('misaligned', 'fine_offgrid_gap') and step < 60:
+        step = 600  # these features place readings at thirds / halves of the step
     sh = step / 3600.0
     if dyadic:
         sthr = rng.choice([0.125, 0.5, 2.0, 4.0, 8.0, 64.0])
